@@ -39,9 +39,15 @@ const (
 	token = "tok-123"
 )
 
+// emptyTok: the init request carries an empty session token (long-term credentials); the variable is still part of
+// the credentials layer (present, empty) and still shadows a customer variable of that name
+var emptyTok bool
+
 // val gives every (layer, variable) pair its own concrete value, with awkward characters.
 func val(layer, name string) string {
 	switch {
+	case layer == "cred" && name == "AWS_SESSION_TOKEN" && emptyTok:
+		return ""
 	case layer == "cred" && name == "AWS_CONTAINER_CREDENTIALS_FULL_URI":
 		return fmt.Sprintf("http://%s:%d/2021-04-23/credentials", host, port)
 	case layer == "cred" && name == "AWS_CONTAINER_AUTHORIZATION_TOKEN":
@@ -62,6 +68,7 @@ type Case struct {
 		Override    bool     `json:"override"`
 		InitHandler bool     `json:"initHandler"`
 		InitNames   bool     `json:"initNames"`
+		EmptyTok    bool     `json:"emptytok"`
 	} `json:"cfg"`
 	Out struct {
 		Rt map[string][]string `json:"rt"`
@@ -128,6 +135,7 @@ func allNames() []string {
 // StoreEnvironmentVariablesFromInit[ForInitCaching] / RuntimeExecEnv / AgentExecEnv.
 func RunAPI(cases []Case, rep *Report) {
 	for i, c := range cases {
+		emptyTok = c.Cfg.EmptyTok
 		for _, n := range allNames() {
 			os.Unsetenv(n)
 		}
@@ -175,6 +183,7 @@ func RunAPI(cases []Case, rep *Report) {
 	for _, n := range allNames() {
 		os.Unsetenv(n)
 	}
+	emptyTok = false
 }
 
 // RunFullStack checks the environments the supervisor is asked to start processes with, for the
